@@ -42,6 +42,10 @@ def main():
         try:
             rc, o = sh(f'git apply {os.path.join(N, i, "patch.diff")}', cwd=scratch)
             if rc:
+                rc, o = sh(f'git apply -3 {os.path.join(N, i, "patch.diff")}', cwd=scratch)
+                if rc == 0 and 'with conflicts' in o:
+                    rc = 1
+            if rc:
                 row = {'applies': False, 'detail': o[-300:]}
                 out[i] = row
                 continue
